@@ -319,6 +319,8 @@ def run (j : Json) : Except String Json := do
     ("recogReal", match recogReal with | some v => Json.str v.name | none => Json.null),
     ("mutantVerdicts", strs mutantVerdicts),
     ("oracleOk", Json.bool oracleOk),
+    ("canon", Schema.toJson s),
+    ("canonDefs", Json.arr (defsDict.map fun (n, d) => Json.arr #[Json.str n, Schema.toJson d]).toArray),
     ("fieldVerdicts", Json.arr fieldVerdicts.toArray),
     ("srcOk", Json.bool srcOk), ("clean", Json.bool clean), ("nestOk", Json.bool nestOk),
     ("nameIssue", Json.bool nameIssue),
